@@ -471,6 +471,20 @@ func c01(c *core.Ctx) {
 					}
 					if newQ(y) && ssax.LoadOfField("gmqtt.Subscription.QoS")(x) && op == token.LSS && st.Val == ssa.Value(paramOf(onlyonce, 1)) {
 						okMax = true
+						// nothing else may stand between a higher grant and its being remembered: the only other
+						// test allowed on the way is whether the client's entry exists
+						for _, g2 := range ssax.Guards(st) {
+							if g2.Cond == g.Cond {
+								continue
+							}
+							if _, isNilTest := nilTests[g2.Cond]; isNilTest {
+								continue
+							}
+							if g2.If.Block().Parent() != onlyonce {
+								continue
+							}
+							c.Violation("C01.R4", "onlyonce|max-qos-unconditional", ipos(c, g2.If), "in onlyonce mode a strictly higher granted QoS replaces the remembered subscription only under an additional condition (e.g. compared with the QoS of the message): a client whose first matching subscription has QoS 0 receives a QoS 1 message at QoS 0 although a later matching subscription grants more")
+						}
 					}
 				}
 			}
